@@ -5,6 +5,7 @@ import (
 	"encoding/hex"
 	"errors"
 	"fmt"
+	"sync"
 
 	blsu "github.com/protolambda/bls12-381-util"
 	"github.com/protolambda/ztyp/codec"
@@ -71,12 +72,17 @@ func (p *BLSPubkey) Pubkey() (*blsu.Pubkey, error) {
 	return &pub, nil
 }
 
+// CachedPubkey is shared between states (and goroutines) through the PubkeyCache:
+// the lazily decompressed key is guarded by a mutex. Do not copy a CachedPubkey, share the pointer.
 type CachedPubkey struct {
 	Compressed   BLSPubkey
+	mu           sync.Mutex
 	decompressed *blsu.Pubkey
 }
 
 func (c *CachedPubkey) Pubkey() (*blsu.Pubkey, error) {
+	c.mu.Lock()
+	defer c.mu.Unlock()
 	if c.decompressed == nil {
 		pub, err := c.Compressed.Pubkey()
 		if err != nil {
